@@ -235,7 +235,7 @@ func NewTree() (*Node, *uint64) {
 	mk(d, "f", false)
 	g := mk(d, "g", true)
 	mk(g, "h", false)
-	for _, n := range []string{"ofail1", "kfail1", "rfail1", "iofail1", "sfail1", "onil1", "wfail1", "wnil1"} {
+	for _, n := range []string{"ofailf1", "ofail1", "kfail1", "rfail1", "iofail1", "sfail1", "onil1", "wfail1", "wnil1"} {
 		mk(root, n, false)
 	}
 	for _, n := range []string{"odfail1", "odnil1", "kfaildir", "dappend", "dtmp", "dexcl"} {
